@@ -81,7 +81,9 @@ def symmetry(prog, rep):
     rep.check(good and n >= 2, "R18.1", "EllipseContains::contains", "the ellipse test may use the centre offset only squared (mirror symmetry about both centre lines)", at=co.span, fn=co.path)
     CI = PRIM + "circle::Circle"
     cc = prog.method1(CI, "contains", PRIM + "ContainsPoint")
-    ro = strip_refs(Origins(cc).return_origin())
+    ro = c05.pred_tree(prog, cc)
+    if ro is None:
+        ro = Canon(prog).tree(strip_refs(Origins(cc).return_origin()))
     pr = c05.dist_predicate(ro)
     rep.check(pr is not None, "R18.1", "Circle::contains", "the circle test must compare the squared length of the doubled centre offset (even function) with the threshold; found %s" % show(ro, maxd=5), at=cc.span, fn=cc.path)
     # EllipseContains::new is invariant under swapping the axes together with a<->b
